@@ -532,6 +532,11 @@ impl<Backing : AsRef<[u32]> + AsMut<[u32]>> DrawTarget<Backing> {
             return;
         }
 
+        // every path starts with no current point: don't continue from
+        // wherever the previous path ended
+        self.current_point = None;
+        self.first_point = None;
+
         for op in &path.ops {
             match *op {
                 PathOp::MoveTo(pt) => {
